@@ -1204,6 +1204,9 @@ func (x *Exec) do1(line string) (res string, leanLine string) {
 	case "sethtml":
 		ht := x.wrappers[idOf(toks[1])].obj.(*thtml.HTMLTable)
 		ht.Id, ht.Class, ht.Caption = unhx(kv(toks, "id")), unhx(kv(toks, "cls")), unhx(kv(toks, "cap"))
+		if tn := kv(toks, "tn"); tn != "~" {
+			ht.TemplateName = unhx(tn) // names the template; no output depends on it
+		}
 		hw := &x.wrappers[idOf(toks[1])]
 		hw.html.id, hw.html.cls, hw.html.cap, hw.html.rc = ht.Id, ht.Class, ht.Caption, nil
 		if rc := kv(toks, "rc"); rc != "~" {
